@@ -6,6 +6,8 @@ package main
 import (
 	"fmt"
 	"go/token"
+	"go/types"
+	"strings"
 
 	"golang.org/x/tools/go/ssa"
 )
@@ -439,6 +441,8 @@ func checkC05(c *Ctx) Meta {
 	c.Rule("C05-LOCKSTATE", "the lock state is one state for the whole wallet: keystores are created/imported only under the passphrase the existing keystores accept, so a failed Unlock cannot leave some keystores signing while the wallet reports locked", 2)
 	checkSamePassphraseGates(c, "C05-LOCKSTATE")
 	c.Rule("C05-KEEPER", "the keeper signs with the public key of the workspace looked up by the requested space id", 1)
+	c.Rule("C05-INDEX", "the address index is keyed by the entry's own address: every insertion into AddrManager.addrs (issuance, reload) uses the address of the very entry inserted; getAddrManager returns the manager in whose index the requested address was found; the address and the public key of an entry are made from one key", 4)
+	checkAddrIndex(c)
 	li := keystoreLocksets(c)
 	_ = li
 	for _, name := range []string{"SignHash", "SignMessage"} {
@@ -698,4 +702,118 @@ func branchPolarity(f *ssa.Function, recv ssa.Value) (bool, string) {
 		}
 	}
 	return okAll, why
+}
+
+// checkAddrIndex: C05-INDEX.
+func checkAddrIndex(c *Ctx) {
+	rule := "C05-INDEX"
+	n := 0
+	for fn := range c.AllFuncs {
+		if pkgOf(fn) != pkgKeystore {
+			continue
+		}
+		allInstrs(fn, func(in ssa.Instruction) {
+			mu, ok := in.(*ssa.MapUpdate)
+			if !ok {
+				return
+			}
+			// maps of string -> *ManagedAddress
+			mt, isM := mu.Map.Type().Underlying().(*types.Map)
+			if !isM || !strings.HasSuffix(mt.Elem().String(), "keystore.ManagedAddress") {
+				return
+			}
+			n++
+			key := fmt.Sprintf("%s:addrs-insert#%d", outermost(fn).Name(), n)
+			// key = <value>.address
+			okKey := false
+			if typ, f, base, isF := fieldOfValue(mu.Key); isF && strings.HasSuffix(typ, "keystore.ManagedAddress") && f == "address" && sameOriginValue(fn, base, mu.Value) {
+				okKey = true
+			}
+			if okKey {
+				c.OK(rule, outermost(fn).Name()+":addrs-insert", c.Pos(mu.Pos()), "addrs[entry.address] = entry")
+			} else {
+				c.Bad(rule, key, c.Pos(mu.Pos()), "an entry is indexed under a key that is not its own address: a signing request for its public key finds another entry's private key or none")
+			}
+		})
+	}
+	if n < 2 {
+		c.Bad(rule, "anchor:addrs-insertions", "", fmt.Sprintf("reason=anchor-missing: expected the issuance and the reload insertion into the address index, found %d", n))
+	}
+	if f := c.MustFn(rule, "poc/wallet/keystore", "(*KeystoreManagerForPoC).getAddrManager"); f != nil {
+		// the manager returned is the one whose index was probed with the argument
+		ok := false
+		var probe *ssa.Lookup
+		allInstrs(f, func(in ssa.Instruction) {
+			if lk, isL := in.(*ssa.Lookup); isL && lk.CommaOk && backSlice(lk.Index).hasParam(f, "addr") && backSlice(lk.X).hasField(tAddrMgr, "addrs") {
+				probe = lk
+			}
+		})
+		if probe != nil {
+			for _, ret := range returnsOf(f) {
+				if isNilConst(strip(ret.Results[0])) {
+					continue
+				}
+				// returned manager and probed manager come from the same iteration of the range
+				rs, ps := backSlice(ret.Results[0]), backSlice(probe.X)
+				for x := range rs.vals {
+					if _, isN := x.(*ssa.Next); isN && ps.has(x) {
+						ok = true
+					}
+				}
+				// and only behind the found edge
+				found := false
+				if refs := probe.Referrers(); refs != nil {
+					for _, r := range *refs {
+						if ex, isE := r.(*ssa.Extract); isE && ex.Index == 1 {
+							for _, t := range boolTestsOf(f, ex) {
+								if t.TrueSucc.Dominates(ret.Block()) && len(t.TrueSucc.Preds) == 1 {
+									found = true
+								}
+							}
+						}
+					}
+				}
+				ok = ok && found
+			}
+		}
+		if ok {
+			c.OK(rule, "getAddrManager:returns-the-manager-that-holds-the-address", c.Pos(f.Pos()), "the manager of the iteration whose addrs[addr] lookup succeeded")
+		} else {
+			c.Bad(rule, "getAddrManager:returns-the-manager-that-holds-the-address", c.Pos(f.Pos()), "the manager returned is not (only) the one whose index contains the requested address")
+		}
+	}
+	// address and pubKey of a managed address come from the same key
+	for _, name := range []string{"newManagedAddressWithoutPrivKey", "newManagedAddress"} {
+		f := c.Fn("poc/wallet/keystore", name)
+		if f == nil {
+			continue
+		}
+		var addrV, pubV ssa.Value
+		for _, a := range fieldAccesses(f) {
+			if a.Kind == "store" && strings.HasSuffix(a.Type, "keystore.ManagedAddress") {
+				if a.Field == "address" {
+					addrV = a.In.(*ssa.Store).Val
+				}
+				if a.Field == "pubKey" {
+					pubV = a.In.(*ssa.Store).Val
+				}
+			}
+		}
+		if addrV == nil || pubV == nil {
+			continue
+		}
+		key := name + ":address-of-own-public-key"
+		shared := false
+		as := backSlice(addrV)
+		for x := range backSlice(pubV).vals {
+			if p, isP := x.(*ssa.Parameter); isP && as.has(p) && strings.Contains(strings.ToLower(p.Name()), "pub") {
+				shared = true
+			}
+		}
+		if shared {
+			c.OK(rule, key, c.Pos(f.Pos()), "address and pubKey derive from the same public-key parameter")
+		} else {
+			c.Bad(rule, key, c.Pos(f.Pos()), "the address of a managed address is not derived from the public key stored in it")
+		}
+	}
 }
